@@ -123,6 +123,13 @@ def run(tier, replay=None):
     t0 = time.time()
     ok, broken = hc.coq_step(rep, pid)
     timing = {"coq_s": round(time.time() - t0, 1)}
+    # lane level (checks/lanemgr.py, docs/lane-mgr.md): C06_lanes_every_configuration_wf + C15_lanes_packed_len_fits as
+    # obligations of C15, and single submits at the limits of the packed lens[] word (background; joined below)
+    try:
+        from checks import lanemgr
+        lanes = None if replay else lanemgr.c15_start(rep, tier)
+    except ImportError:
+        lanemgr = lanes = None
     dist = {}
     failures, wb = [], None
     all_pairs = hc.pairs()
@@ -130,6 +137,8 @@ def run(tier, replay=None):
     rep.notes["dispatcher_binding_under_family_preset"] = {"%s/%s" % k: v for k, v in wok.items() if v != "ok"} or "every family is bound under its preset"
     if replay:
         failures, wb = hc.run_engine(rep, pid, [hc.replay_case(replay)], "01", dist, "replay", shards=1)
+        if lanemgr:
+            lanemgr.c15_replay(rep, replay, failures)     # a single V submit: digest against hashlib
     else:
         # (i) state injection: every pair, the three thresholds
         t1 = time.time()
@@ -178,6 +187,8 @@ def run(tier, replay=None):
         check_virtual(rep, virt, keep, failures)
         timing["virtual_s"] = round(time.time() - t3, 1)
         rep.notes["single_big_submit_cases"] = ["%s/%s" % (c["algo"], c["fam"]) for c in virt]
+        if lanes:
+            lanemgr.c15_finish(lanes, rep, failures, timing)
         mine = [x for x in failures if pid in x[1]["prop"] or x[1]["prop"] == "ALL"]
         if (not ok or wb) and not mine:
             more = []
